@@ -298,6 +298,15 @@ def topoOk (ns : List Node) : Bool :=
     | n :: rest => n.inherits.all (fun i => !all.contains i || seen.contains i) && go (n.name :: seen) all rest
   go [] (ns.map (·.name)) ns
 
+/-- loading flavor definitions in the given order: defflavor demands that every inherited flavor
+    is already defined (`defined` = names defined so far); the result is the names in the order
+    they were defined, or the first flavor that could not be defined -/
+def loadFlavors : List Node → List String → Except String (List String)
+  | [], defined => .ok defined
+  | n :: rest, defined =>
+    if n.inherits.all (fun i => defined.contains i) then loadFlavors rest (defined ++ [n.name])
+    else .error n.name
+
 /-- Go's `insertionSortLessFunc` (what sort.Slice runs for n < 12): for i = 1..n-1, swap element
     j with j-1 while `less j (j-1)`.  `sinkLeft less x revPrefix` inserts x into the already
     processed prefix (held reversed, nearest neighbour first). -/
